@@ -692,6 +692,26 @@ func DShape(a any) bool {
 	return DLeaf(e)
 }
 
+// IntBack: the value is an int that converts back to exactly the float f.
+func IntBack(out any, f float64) bool {
+	i, ok := out.(int)
+	return ok && float64(i) == f
+}
+
+// Float64Of: the float64 held by an interface value.
+func Float64Of(a any) float64 { f, _ := a.(float64); return f }
+
+// IsFloat64Val: a holds a float64.
+func IsFloat64Val(a any) bool { _, ok := a.(float64); return ok }
+
+// toIntIfNecessary turns a decoded float into an int only when that loses nothing: the
+// int converts back to the same float (so a bound beyond the int range stays a float).
+
+//@ func toIntIfNecessary
+//@   props C12 C13
+//@   ensures[other-values-untouched] !IsFloat64Val(in) ==> out == in
+//@   ensures[int-only-if-lossless] IsFloat64Val(in) ==> verifspec.Same(out, in) || IntBack(out, Float64Of(in))
+
 //@ func unmarshalLiteral
 //@   props C13 C12
 //@   ensures e != nil
